@@ -1091,7 +1091,7 @@ func (c14Engine) Meta() core.Meta {
 	return core.Meta{
 		Property:   "C14",
 		Level:      "exploration",
-		NonVacuous: []string{"warm_hit_served", "invalid_entry_rearmed", "failure_after_cache_writer_armed", "stdin_spooled_to_temp_file"},
+		NonVacuous: []string{"warm_hit_served", "invalid_entry_rearmed", "failure_after_cache_writer_armed", "stdin_spooled_to_temp_file", "input_given_as_named_pipe", "option_value_with_bytes_that_are_not_utf8"},
 		Rule: "Each simulated run draws a history of 1-4 (thorough 1-6) gts invocations from its seed, built around one anchor invocation of one of the 19 " +
 			"cached subcommands with seeded options, positionals, input (corpus records, multi-record, FASTA, invalid second record, garbage tail, empty), " +
 			"stdin as pipe (seeded chunk schedule) or tty+path, stdout or -o, -F, and environment (cache dir ok / undefined / uncreatable / read-only, temp dir " +
